@@ -245,6 +245,61 @@ func runC22(c *Ctx) {
 	c.Floor("execute-gated", 3)
 	c.Floor("not-run-forwarded", 2)
 
+	// what the command event / dispatcher sees is what the player typed: the command line handed to
+	// queueCommandResult is the packet's command field, or (legacy chat) the message with exactly one
+	// leading slash removed (strings.TrimPrefix(msg, "/")); and the event is built from that value.
+	nMsg := 0
+	for _, fn := range scope {
+		for _, ci := range callsIn(fn, func(nm string, cc *ssa.CallCommon) bool { return strings.HasSuffix(nm, "chatHandler).queueCommandResult") }) {
+			nMsg++
+			msg := ci.Common().Args[1]
+			ok := false
+			how := PathOf(msg)
+			if strings.HasSuffix(PathOf(msg), ".Command") && strings.HasPrefix(PathOf(msg), fn.Params[1].Name()) {
+				ok = true
+			}
+			if cl := callValue(msg); cl != nil {
+				how = calleeName(&cl.Call)
+				if calleeName(&cl.Call) == "strings.TrimPrefix" {
+					s, isS := constString(cl.Call.Args[1])
+					if isS && s == "/" && strings.HasSuffix(PathOf(cl.Call.Args[0]), ".Message") {
+						ok = true
+					}
+				}
+			}
+			c.Check("command-as-typed", "commandline@"+shortName(fn), ci, ok,
+				"the command line given to the command event is not the packet's command (or the chat message minus exactly one leading '/'): derived via "+how+" — e.g. '//wand' must stay '/wand', not become 'wand'")
+		}
+	}
+	if nMsg < 3 {
+		c.Undecided("command-as-typed", "queueCommandResult", fmt.Sprintf("expected 3 call sites, found %d", nMsg))
+	}
+	if q := c.MustFunc(pkgProxy + ":(*chatHandler).queueCommandResult"); q != nil {
+		okEv := false
+		eachInstr(q, func(in ssa.Instruction) {
+			a, ok := in.(*ssa.Alloc)
+			if !ok || !typeIs(a.Type(), "java/proxy", "CommandExecuteEvent") {
+				return
+			}
+			n := 0
+			for _, r := range *a.Referrers() {
+				if fa, isFA := r.(*ssa.FieldAddr); isFA {
+					switch fieldOfAddr(fa).Name() {
+					case "commandline", "originalCommand":
+						for _, sv := range storedInto(fa, 0) {
+							if strip(sv) == ssa.Value(q.Params[1]) {
+								n++
+							}
+						}
+					}
+				}
+			}
+			okEv = n == 2
+		})
+		c.CheckAt("command-as-typed", "event.commandline=originalCommand=message@queueCommandResult", c.P.Pos(q.Pos()), okEv,
+			"the command event must be initialised with the command line exactly as received")
+	}
+
 	// executeCommand: hasRun=false only for ErrForward / unknown command
 	if ex := c.MustFunc(pkgProxy + ":executeCommand"); ex != nil {
 		isFwdErr := func(e Edge, cond ssa.Value, truth bool) bool {
